@@ -62,6 +62,7 @@ func c07ManyBlocks(r *Run) {
 		file := ct.Bytes(false)
 		readers := map[string]func() avro.Reader{
 			"bytes.Reader":                     func() avro.Reader { return bytes.NewReader(file) },
+			"reader whose Len() is its window": func() avro.Reader { return &c07LenReader{r: bytes.NewReader(file), window: 64} },
 			"reader returning data with EOF":   func() avro.Reader { return &c07DataEOFReader{data: file, chunk: 1} },
 			"pausing reader":                   func() avro.Reader { return &c07PausingReader{r: bytes.NewReader(file)} },
 			"pausing reader, 7 bytes per Read": func() avro.Reader { return &c07PausingReader{r: bytes.NewReader(file), short: 7} },
